@@ -109,6 +109,9 @@ func (e *Enc) callCommon(fr *Frame, st *State, cc *ssa.CallCommon, fnv *Val, arg
 		// the function value itself is bound to the name `callee` in a functype contract
 		return e.applyContract(fr, st, c, append([]*Val{fnv}, args...), rt, hint, pos)
 	}
+	// an unknown function VALUE may be a closure over anything: whatever its arguments are, it can mutate every heap
+	// object and every component of the abstract state
+	e.havocAll(st)
 	return e.defaultCall(fr, st, dk, args, rt, hint, pos)
 }
 
